@@ -10,7 +10,7 @@ import (
 	"github.com/avfs/avfs/vfs/orefafs"
 )
 
-func memfsCheck(v *memfs.MemFS) func() string      { return v.VerifCheck }
+func memfsCheck(v *memfs.MemFS) func() string       { return v.VerifCheck }
 func orefafsCheck(v *orefafs.OrefaFS) func() string { return v.VerifCheck }
 
 // InstallSelfDeadlockHook makes every mutex acquisition of the code under test fail fast when the
